@@ -203,3 +203,17 @@ Theorem c14_waiters_reordered :
     proj st' 1 = proj st 1 /\
     waiting st' 1 0 = rev (waiting st 1 0) /\ waiting st' 1 0 <> waiting st 1 0.
 Proof. exact c14_waiters_reordered_example. Qed.
+
+(** Link layer (Stack.Model.epilogue = the tail of the per-connection task remote()): when the ROUTER
+    dropped the link (the task's start() ended with the Link error) the task sends NO Disconnect
+    event for that connection id — the id may already belong to a connection established later
+    (the router itself has no epoch check: c14_stale_refuted / known finding K10). *)
+From Rumqtt Require Stack.Model Stack.Proofs.
+
+Theorem c14_no_late_disconnect_after_router_drop : forall w,
+  fst (Stack.Model.epilogue (Stack.Model.classify (Some Stack.Model.ELink)) w) = false.
+Proof. exact Stack.Proofs.c14_no_late_disconnect_after_router_drop. Qed.
+
+Theorem c14_disconnect_event_only_without_router_drop : forall r w,
+  fst (Stack.Model.epilogue (Stack.Model.classify r) w) = true -> r <> Some Stack.Model.ELink.
+Proof. exact Stack.Proofs.c14_disconnect_event_only_without_router_drop. Qed.
